@@ -43,11 +43,17 @@ def _int_boundaries(lo: int, hi: int) -> List[int]:
 
 def int_strategy(t: str):
     lo, hi = INT_RANGES[t]
-    return st.one_of(
+    parts = [
         st.sampled_from(_int_boundaries(lo, hi)),
         st.integers(lo, hi),
         st.integers(max(lo, -300), min(hi, 300)),
-    )
+        # the extreme quarters of the range, uniformly (Hypothesis's own integers() favours small magnitudes): values
+        # that need the top bit(s) of the type - where sign / width confusions show
+        st.integers(hi - (hi - lo) // 4, hi),
+    ]
+    if lo < 0:
+        parts.append(st.integers(lo, lo + (hi - lo) // 4))
+    return st.one_of(*parts)
 
 
 _TEXT_SPECIAL = ["", "\x00", "a", "\U0001F600", "é", "￿", "a\x00b", " ", "\U0010ffff",
